@@ -851,10 +851,11 @@ def cases_C08(ctx):
     for d in datas:
         cs.append(case("crc " + hx(d), "crc:len%d" % min(len(d), 8), ("crc", {"data": hx(d)})))
     # strings whose own CRC is zero (message + crc), as *inputs* of the helpers again: crc2bytes of such a string is 00 00 00
-    for d in datas[-ctx.n(40, 200):]:
+    for _ in range(ctx.n(40, 200)):
+        d = gens.unknown_payload(rng, ctx.t, rng.choice([2, 3, 9, 40, 300, 1020]))      # unknown number: always constructs
         f = d + crc24q_ref(d).to_bytes(3, "big")
-        if len(f) >= 5 and f[0] >> 4 != 0xF:          # as a payload: frame it, the frame's trailer must be its real CRC
-            cs.append(case("msg 1 " + hx(f[:1023]), "crc:zero-payload", ("serialize", {"payload": hx(f[:1023]), "label": "1"})))
+        # as a payload: frame it, the frame's trailer must be its real CRC
+        cs.append(case("msg 1 " + hx(f), "crc:zero-payload", ("serialize", {"payload": hx(f), "label": "1"})))
     # value over message + its crc is zero
     for d in datas[-ctx.n(80, 500):]:
         f = d + crc24q_ref(d).to_bytes(3, "big")
